@@ -2,6 +2,7 @@
  * SYMBOLIC multiplexer (2^24) and symbolic access-flag bytes on every
  * application entry; COSdoCheck + COSdoGetObject on the template dictionary
  * (no type dispatch on this path).  Oracle: linear reference lookup. */
+#define OD_HIGH
 #include "sdo_inv.h"
 
 void harness(void)
@@ -72,5 +73,6 @@ void harness(void)
     COVER(err != CO_ERR_NONE && exact == 0 && idx_exists, "unknown sub-index");
     COVER(err != CO_ERR_NONE && !idx_exists, "unknown index");
     COVER(idx == 0 && sub == 0, "multiplexer 0000h:00h");
+    COVER(err == CO_ERR_NONE && idx >= 0xA000, "object in the upper half of the index range accepted");
     COVER(1, "end");
 }
